@@ -369,3 +369,96 @@ Definition call_code (I : instance) (cd : list act) : Prop :=
 (* a client thread: any finite sequence of calls *)
 Definition client_code (I : instance) (cd : list act) : Prop :=
   exists cds, Forall (call_code I) cds /\ cd = concat cds.
+
+(* ---- programs with data: the reduction from micro-steps to atomic sections ------------------
+   (single RW mutex, no nesting, no goroutine creation: the shape of every operation of
+   ReadWrite and StorageCar except the goroutine of AllKeysChan, which touches no shared field)
+   A call is a resumption: what it does next may depend on every value it has read. *)
+Section Data.
+Variables V R : Type.
+Variable exempt : nat -> bool.
+
+Inductive prog :=
+| PRet (r : R)
+| PAcq (md : mode) (k : prog)
+| PRel (md : mode) (k : prog)
+| PRd (f : nat) (k : V -> prog)
+| PWr (f : nat) (v : V) (k : prog).
+
+Definition store := nat -> V.
+Definition supd (s : store) (f : nat) (v : V) : store := fun x => if Nat.eqb x f then v else s x.
+
+(* the lock discipline on resumptions: along every branch *)
+Fixpoint pok (h : option mode) (p : prog) : Prop :=
+  match p with
+  | PRet _ => h = None
+  | PAcq md k => h = None /\ pok (Some md) k
+  | PRel md k => h = Some md /\ pok None k
+  | PRd f k => (exempt f = true \/ h <> None) /\ forall v, pok h (k v)
+  | PWr f v k => exempt f = false /\ h = Some MW /\ pok h k
+  end.
+
+(* micro-step machine: actions of different threads interleave *)
+Record dthread := { dh : option mode; dp : prog }.
+Record dcfg := { dwl : bool; drc : nat; dst : store; dts : list dthread }.
+
+Inductive dstep : dcfg -> dcfg -> Prop :=
+| DAcqW l r h k c :
+    dts c = l ++ {| dh := h; dp := PAcq MW k |} :: r -> dwl c = false -> drc c = 0 ->
+    dstep c {| dwl := true; drc := 0; dst := dst c; dts := l ++ {| dh := Some MW; dp := k |} :: r |}
+| DAcqR l r h k c :
+    dts c = l ++ {| dh := h; dp := PAcq MR k |} :: r -> dwl c = false ->
+    dstep c {| dwl := false; drc := S (drc c); dst := dst c; dts := l ++ {| dh := Some MR; dp := k |} :: r |}
+| DRelW l r h k c :
+    dts c = l ++ {| dh := h; dp := PRel MW k |} :: r ->
+    dstep c {| dwl := false; drc := drc c; dst := dst c; dts := l ++ {| dh := None; dp := k |} :: r |}
+| DRelR l r h k c :
+    dts c = l ++ {| dh := h; dp := PRel MR k |} :: r ->
+    dstep c {| dwl := dwl c; drc := pred (drc c); dst := dst c; dts := l ++ {| dh := None; dp := k |} :: r |}
+| DRd l r h f k c :
+    dts c = l ++ {| dh := h; dp := PRd f k |} :: r ->
+    dstep c {| dwl := dwl c; drc := drc c; dst := dst c; dts := l ++ {| dh := h; dp := k (dst c f) |} :: r |}
+| DWr l r h f v k c :
+    dts c = l ++ {| dh := h; dp := PWr f v k |} :: r ->
+    dstep c {| dwl := dwl c; drc := drc c; dst := supd (dst c) f v; dts := l ++ {| dh := h; dp := k |} :: r |}.
+
+Inductive dsteps : dcfg -> dcfg -> Prop :=
+| dsteps_refl c : dsteps c c
+| dsteps_trans a b c : dsteps a b -> dstep b c -> dsteps a c.
+
+Definition dinit (s : store) (ps : list prog) : dcfg :=
+  {| dwl := false; drc := 0; dst := s; dts := map (fun p => {| dh := None; dp := p |}) ps |}.
+
+(* atomic-section machine: no lock state; a critical section runs to its release in ONE step *)
+Fixpoint sec_run (s : store) (p : prog) : store * prog :=
+  match p with
+  | PRel _ k => (s, k)
+  | PRd f k => sec_run s (k (s f))
+  | PWr f v k => sec_run (supd s f v) k
+  | PAcq _ _ | PRet _ => (s, p)
+  end.
+
+Record acfg := { ast : store; ats : list prog }.
+
+Inductive astep : acfg -> acfg -> Prop :=
+| ASec l r md k c :
+    ats c = l ++ PAcq md k :: r ->
+    astep c {| ast := fst (sec_run (ast c) k); ats := l ++ snd (sec_run (ast c) k) :: r |}
+| ARd l r f k c :
+    ats c = l ++ PRd f k :: r -> exempt f = true ->
+    astep c {| ast := ast c; ats := l ++ k (ast c f) :: r |}.
+
+Inductive asteps : acfg -> acfg -> Prop :=
+| asteps_refl c : asteps c c
+| asteps_trans a b c : asteps a b -> astep b c -> asteps a c.
+
+Definition ainit (s : store) (ps : list prog) : acfg := {| ast := s; ats := ps |}.
+
+(* the act traces of a resumption (what the translator extracts from the source) *)
+Inductive ptrace : prog -> list act -> Prop :=
+| pt_ret r : ptrace (PRet r) []
+| pt_acq md k t : ptrace k t -> ptrace (PAcq md k) (Acq 0 md :: t)
+| pt_rel md k t : ptrace k t -> ptrace (PRel md k) (Rel 0 md :: t)
+| pt_rd f k v t : ptrace (k v) t -> ptrace (PRd f k) (Rd f :: t)
+| pt_wr f v k t : ptrace k t -> ptrace (PWr f v k) (Wr f :: t).
+End Data.
